@@ -16,7 +16,8 @@ EXTENDS Integers, Sequences, FiniteSets, FiniteSetsExt, TLC, Json
 
 CONSTANTS Obj,        \* object identifiers
           Zero,       \* the encoding of time 0.0 (initial bounds)
-          EmitEdges   \* TRUE: print one JSON line per transition (spec -> code replay)
+          EmitEdges,  \* TRUE: print one JSON line per transition (spec -> code replay)
+          Mutant      \* "none", or the name of a deliberately wrong variant (self-test of the invariants)
 
 VARIABLES heap,       \* Obj -> continuum value or NoObj
           out         \* outcome of the last call: "ok" or the exception class
@@ -65,6 +66,10 @@ MergeLower(c, d) == AddAll([c EXCEPT !.ann = @ \cup d.ann], d.units)
 
 ResetVal(c) ==
     IF c.units = {} THEN [c EXCEPT !.lo = Zero, !.hi = Zero]
+    ELSE IF Mutant = "reset_last_in_order"      \* the library before its fix: end of the last unit in sort order
+    THEN [c EXCEPT !.lo = Min({u[2] : u \in c.units}),
+                   !.hi = Max({(CHOOSE u \in UnitsOf(c, a) : \A v \in UnitsOf(c, a) : v = u \/ ULess(v, u))[3] :
+                                 a \in {u[1] : u \in c.units}})]
     ELSE [c EXCEPT !.lo = Min({u[2] : u \in c.units}),
                    !.hi = Max({u[3] : u \in c.units})]
 
@@ -83,7 +88,7 @@ New(o) ==
 
 Add(o, a, s, e, l) ==
     /\ o \in Live
-    /\ IF s >= e
+    /\ IF s >= e /\ Mutant # "add_accepts_empty"
          THEN heap' = heap /\ out' = "ValueError"          \* zero-length (empty) segments always rejected
          ELSE heap' = [heap EXCEPT ![o] = AddTo(@, a, s, e, l)] /\ out' = "ok"
     /\ Emit("add", <<o, a, s, e, l>>)
@@ -97,7 +102,10 @@ AddAnnotator(o, a) ==
 Remove(o, a, s, e, l) ==
     /\ o \in Live
     /\ IF <<a, s, e, l>> \in heap[o].units
-         THEN heap' = [heap EXCEPT ![o].units = @ \ {<<a, s, e, l>>}] /\ out' = "ok"   \* bounds, cats kept
+         THEN /\ heap' = [heap EXCEPT ![o] = IF Mutant = "remove_shrinks_bounds"
+                                              THEN ResetVal([@ EXCEPT !.units = @ \ {<<a, s, e, l>>}])
+                                              ELSE [@ EXCEPT !.units = @ \ {<<a, s, e, l>>}]]   \* bounds, cats kept
+              /\ out' = "ok"
          ELSE heap' = heap /\ out' = "KeyError"
     /\ Emit("remove", <<o, a, s, e, l>>)
 
@@ -106,7 +114,8 @@ Remove(o, a, s, e, l) ==
 Copy(o, o2) ==
     /\ o \in Live /\ heap[o2] = NoObj
     /\ \E extra \in SUBSET (heap[o].cats \ LabelsInUse(heap[o])) :
-          heap' = [heap EXCEPT ![o2] = [heap[o] EXCEPT !.cats = LabelsInUse(heap[o]) \cup extra]]
+          heap' = [heap EXCEPT ![o2] = [heap[o] EXCEPT !.cats = IF Mutant = "copy_drops_cats" THEN {}
+                                                                 ELSE LabelsInUse(heap[o]) \cup extra]]
     /\ out' = "ok"
     /\ Emit("copy", <<o, o2>>)
 
